@@ -7,8 +7,8 @@
                     (field bt: the word is in a backtracking situation of the generated lexer)
      name-rejected  a documented unit name, typed on its own, is not accepted with its own meaning
      acceptance     (drift) the tool accepts / rejects differently from the longest-match procedure
-   Lines of kind "def": a unit key and the value n/d the tool gives for `1 <name> to <SI base units>`
-   with the base dimensions of the *standards table*:
+   Lines of kind "def": a unit key, a power pw and the value n/d the tool gives for
+   `1 <name>^pw to <SI base units>^pw` with the base dimensions of the *standards table*:
      dims           the conversion is refused: the unit does not have the standard dimensions
      scale          the value is none of the standard meanings of the name (UAltFacR), nor an accepted
                     rounding (ACCEPT, decided from the standards table by vocab/units.py)             *)
@@ -39,7 +39,8 @@ CheckWord(r) ==
 CheckDef(r) ==
   IF ~r.ok THEN [problems |-> <<"dims">>, bt |-> FALSE, nread |-> 0]
   ELSE LET alts == UAltFacR(r.key) \cup (IF r.key \in DOMAIN Accept THEN {RDiv(RLimbs(Accept[r.key].n), RLimbs(Accept[r.key].d))} ELSE {})
-           good == \E f \in alts : SameAs(f, FALSE, r.n, r.d) IN
+           \* r.pw: the power the unit was given in the query (1, -1, 2): the value is the factor to that power
+           good == \E f \in alts : SameAs(RPow(f, r.pw), FALSE, r.n, r.d) IN
        [problems |-> IF good THEN <<>> ELSE <<"scale">>, bt |-> FALSE, nread |-> 0]
 
 Check(r) == IF r.kind = "def" THEN CheckDef(r) ELSE CheckWord(r)
